@@ -72,7 +72,9 @@ def mentions_borrow(t):
 def prelude(defs, kotlin_errors=True):
     """type definitions of the catalogue; defs = the DEFS record emitted by TLC"""
     err = "    #[diplomat::attr(kotlin, error)]\n" if kotlin_errors else ""
-    out = ["    #[diplomat::opaque]\n    pub struct Opq(pub u64);\n", "    #[diplomat::opaque]\n    pub struct Host(pub u64);\n",
+    out = ["    #[diplomat::opaque]\n    pub struct Opq(pub u64);\n",
+           "    #[diplomat::opaque]\n    pub struct Host {\n        pub id: u64,\n        pub inner: Opq,\n        pub text: String,\n"
+           "        pub bytes: Vec<u8>,\n        pub floats: Vec<f64>,\n        pub words: Vec<u32>,\n        pub wide: Vec<u16>,\n    }\n",
            err + "    pub enum En {\n        A,\n        B = 5,\n        C = -3,\n        D,\n    }\n"]
     for name, fields in defs["structs"].items():
         lt = "<'a>" if name == "Brw" else ""
@@ -113,7 +115,19 @@ def method(n, sig, body="todo!()"):
     return "        pub fn f%d%s(%s)%s { %s }\n" % (n, gen, ", ".join(params), ret, body), "%s_f%d" % (host_of(sig), n)
 
 
-def module(defs, cases, bodies=None, kotlin_errors=True, name="ffi"):
+CTORS = """    impl Opq {
+        pub fn mk(v: u64) -> Box<Opq> { Box::new(Opq(v)) }
+    }
+    impl Host {
+        #[diplomat::demo(default_constructor)]
+        pub fn mk(v: u64) -> Box<Host> {
+            Box::new(Host { id: v, inner: Opq(v), text: %s.into(), bytes: vec!%s, floats: vec![1.5, -0.0], words: vec!%s, wide: vec!%s })
+        }
+    }
+"""
+
+
+def module(defs, cases, bodies=None, kotlin_errors=True, name="ffi", host_data=None):
     """cases: list of (n, sig). Returns (rust source, {n: symbol})"""
     by_host = {}
     syms = {}
@@ -125,7 +139,10 @@ def module(defs, cases, bodies=None, kotlin_errors=True, name="ffi"):
     for h, ms in by_host.items():
         hl = "<'b>" if h == "Brw" else ""
         impls += "    impl%s %s%s {\n%s    }\n" % (hl, h, hl, "".join(ms))
-    return "#[diplomat::bridge]\npub mod %s {\n%s%s}\n" % (name, prelude(defs, kotlin_errors), impls), syms
+    import json as _j
+    hd = host_data or ("x", [0], [0], [0])
+    ctors = CTORS % (_j.dumps(hd[0], ensure_ascii=False), _j.dumps(hd[1]), _j.dumps(hd[2]), _j.dumps(hd[3]))
+    return "#[diplomat::bridge]\npub mod %s {\n%s%s%s}\n" % (name, prelude(defs, kotlin_errors), ctors, impls), syms
 
 
 def uses_nonptr_option(sig):
